@@ -309,3 +309,45 @@ Proof.
   apply bind_no_crash; [intros; apply read_n_no_crash; apply read_varint64_no_crash|]. intros [vals r4] c7.
   apply bind_no_crash; [intros; apply rebuild_no_crash|]. intros; discriminate.
 Qed.
+
+(** * with compression *)
+Require Import PM.Oracles.
+Theorem dir_roundtrip cx asy c es : codec_inv cx -> c <> CUnknown -> valid_dir es -> nlen es < two64 ->
+  exists b, encode_dir cx asy c es = Ok b /\ decode_dir cx c b = Ok es.
+Proof.
+  intros Hinv Hc Hv Hn. unfold encode_dir, decode_dir.
+  rewrite (encode_is_spec es Hv).
+  destruct c; try congruence; cbn [compress bind decompress_lazy].
+  - exists (spec_encode_dir es). split; [reflexivity|].
+    rewrite <- (app_nil_r (spec_encode_dir es)). now apply decode_spec.
+  - eexists; split; [reflexivity|]. rewrite Hinv by congruence. cbn [bind].
+    rewrite <- (app_nil_r (spec_encode_dir es)). now apply decode_spec.
+  - eexists; split; [reflexivity|]. rewrite Hinv by congruence. cbn [bind].
+    rewrite <- (app_nil_r (spec_encode_dir es)). now apply decode_spec.
+  - eexists; split; [reflexivity|]. rewrite Hinv by congruence. cbn [bind].
+    rewrite <- (app_nil_r (spec_encode_dir es)). now apply decode_spec.
+Qed.
+
+Theorem dir_plain_is_spec cx asy es : valid_dir es -> encode_dir cx asy CNone es = Ok (spec_encode_dir es).
+Proof. intros Hv. unfold encode_dir. cbn [compress bind]. now rewrite (encode_is_spec es Hv). Qed.
+
+Theorem dir_decodes_spec cx es trailing : valid_dir es -> nlen es < two64 ->
+  decode_dir cx CNone (spec_encode_dir es ++ trailing) = Ok es.
+Proof. intros Hv Hn. unfold decode_dir. cbn [decompress_lazy bind]. now apply decode_spec. Qed.
+
+Theorem dir_decode_no_crash cx c bs k : decode_dir cx c bs <> Crash k.
+Proof.
+  unfold decode_dir. apply bind_no_crash.
+  - intros k'. destruct c; cbn; discriminate.
+  - intros [p f] k'. apply decode_dir_no_crash.
+Qed.
+
+Lemma varints_wf l : wf_bytes (varints l).
+Proof.
+  unfold varints. induction l as [|v r IH]; [constructor|]. cbn [map concat].
+  apply Forall_app. split; [apply write_varint_wf|exact IH].
+Qed.
+Theorem spec_encode_wf es : wf_bytes (spec_encode_dir es).
+Proof.
+  unfold spec_encode_dir. repeat (apply Forall_app; split); try apply varints_wf. apply write_varint_wf.
+Qed.
